@@ -67,12 +67,20 @@ def _cls(name):
     return Buffer
 
 
-def check_text(clsname, text, offsets=None):
-    """returns list of (offset, detail) failures"""
+def check_text(clsname, text, offsets=None, source=None, prev=None):
+    """returns list of (offset, detail) failures.  source: the text is given a source name (a file that is read again after an edit);
+    prev: a text built under the same source name just before (what the answer for `text` must not depend on)"""
     cls = _cls(clsname)
     fails = []
     try:
-        c = cls(text).newcursor()
+        if source is not None:
+            if prev is not None:
+                pc_ = cls(prev, source=source).newcursor()
+                if prev:
+                    pc_.lineinfo(0)
+            c = cls(text, source=source).newcursor()
+        else:
+            c = cls(text).newcursor()
     except Exception as e:
         return [(-1, dict(bucket=f'{clsname}:ctor:{type(e).__name__}', oracle='constructing the input raised', observed=repr(e)))]
     lines = split(text)
@@ -137,9 +145,14 @@ def run_shard(sh, kind, **kw):
     return parseinfo_check.run_shard(sh, **kw)
 
 
+def split_count(text):
+    return len(split(text))
+
+
 def run_lines(sh, index, nshards, maxlen, nhyp):
     k = 0
     complete = True
+    prevs = {}
     for L in range(0, maxlen + 1):
         for t in itertools.product(ALPHA, repeat=L):
             k += 1
@@ -158,6 +171,14 @@ def run_lines(sh, index, nshards, maxlen, nhyp):
                             sample=dict(cls=clsname, text=text, offset=p))
                 for p, d in fails:
                     sh.fail(d['bucket'], dict(kind='lines', cls=clsname, text=text, offset=p), d)
+                # the same text under a source name that the previous text of this enumeration (same length, mostly the same number of
+                # lines, other break positions) was given too: a file that is edited and read again
+                prev = prevs.get(clsname)
+                if prev is not None and len(prev) == len(text):
+                    for p, d in check_text(clsname, text, source='edited.txt', prev=prev):
+                        sh.fail('named-source:' + d['bucket'], dict(kind='lines', cls=clsname, text=text, offset=p, source='edited.txt', prev=prev), d)
+                    sh.case((clsname, text, 'named', prev), split_count(prev) == split_count(text) and prev != text, [f'class:{clsname}', 'named source read again after an edit'])
+                prevs[clsname] = text
         if not complete:
             break
     sh.exhaustive[f'strings over {{a,space,LF,CR}} up to length {maxlen}, all offsets, both classes'] = complete
@@ -178,7 +199,7 @@ def run_lines(sh, index, nshards, maxlen, nhyp):
 
 def replay(case):
     if case.get('kind') == 'lines':
-        fails = check_text(case['cls'], case['text'], [case['offset']] if case['offset'] >= 0 else None)
+        fails = check_text(case['cls'], case['text'], [case['offset']] if case['offset'] >= 0 else None, source=case.get('source'), prev=case.get('prev'))
         return fails[0][1] if fails else None
     from vf import parseinfo_check
     return parseinfo_check.replay(case)
